@@ -161,6 +161,12 @@ func c08Spaces(c *fw.Ctx) {
 				emit(func(r *fw.R) { c08Msg(r, m, "offset") })
 			})
 		})
+	c.Space("offset-16384-typed", "one record of every name-bearing type starting at every offset 16290..16390 (its RDATA names, with suffixes new to the message, sweep across the 16384 pointer limit), followed by NS/MX/CNAME records with names below those suffixes: Len ≥ Pack, exact when plain; non-trivial: escape-free common type", true,
+		func(emit func(func(*fw.R))) {
+			genOffsetsTyped(16290, 16390, func(m *wire.Msg, at int, t uint16) {
+				emit(func(r *fw.R) { c08Msg(r, m, "offset-typed") })
+			})
+		})
 	c.Space("bitmaps", "NSEC, NSEC3 and CSYNC with every subset of the type set {0,1,255,256,257,65535} (ascending) as bitmap; non-trivial: non-empty subset", true,
 		func(emit func(func(*fw.R))) {
 			set := []uint16{0, 1, 255, 256, 257, 65535}
